@@ -279,6 +279,7 @@ func runC17Gas(st *ev.Stats, c C17GasCase) string {
 	gm.ConsumeGas(c.Used, "used")
 	ctx = ctx.WithBlockGasMeter(gm)
 	k.SetTransientBlockGasWanted(ctx, c.Wanted)
+	k.SetBlockGasWanted(ctx, 777777) // the figure of the previous block: EndBlock must overwrite it whatever this block held
 	kk := k
 	kk.EndBlock(ctx, abciEndBlock())
 	got := k.GetBlockGasWanted(ctx)
